@@ -143,3 +143,110 @@ Example C17_example_ieee_domain :
   let vals := [ {| v_start := 2; v_end := 4; v_bits := 1065353216 |}; {| v_start := 6; v_end := 8; v_bits := 3212836864 |} ] in
   FloatExact.in_exact_domain vals = true /\ sum_of ieee (clip_filter 3 8 vals) = sum_of exact (clip_filter 3 8 vals).
 Proof. cbv zeta. split; [vm_compute; reflexivity|]. vm_compute. reflexivity. Qed.
+
+(* ================= the same with the FILE BYTES as the subject (Proofs/BedStatsFile.v) =================
+   Above, the statistics are stated over [clip_filter s e vals], the list-level answer of a range query.  Here the
+   subject is [bs], the bytes returned by the bigWig writer model ([bw_write] = BigWigWrite::write, or the two-pass
+   writer) on an accepted input: the model of stats_for_bed_item / of the valuesoverbed row, run on what the READER
+   returns for those bytes ([bw_interval infl bs i]: header -> chromosome tree -> R-tree search on the index bytes ->
+   block reads -> section decode -> clip; C01_query_on_input), yields the statistics of C17_stats over
+   [clip_filter s e (vals_of inp c)], [vals_of inp c] = the values the INPUT holds for chromosome c, in input order.
+   Hypotheses: C01's ([opts_ok]: 2 <= block_size <= 65535, 1 <= items_per_slot <= 65535; [input_ok]: names NUL-free and
+   < 2^32 bytes, < 65536 chromosomes, lengths and bit patterns < 2^32; file < 2^64 bytes), the chromosome has data, and
+   s <= e.  [fp] (rounding mode of the writer's summary arithmetic), [fq] (rounding mode of the statistics), [infl]
+   (decompressor; the file is uncompressed) and the region's extra columns are arbitrary. *)
+From BT Require Proofs.RTreeCodec Proofs.BigWigFileRoundTrip Proofs.BigWigFileInput Proofs.BedStatsFile.
+
+Theorem C17_stats_file : forall fp o sizes (inp : list BigWigWrite.item) bs,
+  BigWigFileRoundTrip.opts_ok o -> BigWigFileRoundTrip.input_ok sizes inp -> Nlen bs < RTreeCodec.U64 ->
+  bw_write fp o sizes inp = Ok bs \/ bw_write_multipass fp o sizes inp = Ok bs ->
+  exists i, read_info bs = Ok i /\
+  forall fq infl c s e rest, In c (map fst inp) -> s <= e ->
+  let cl := clip_filter s e (BigWigFileInput.vals_of inp c) in
+  bw_interval infl bs i c s e = Ok cl /\
+  exists st,
+    stats_for_bed_item fq (bw_interval infl bs i) c {| be_start := s; be_end := e; be_rest := rest |} = Ok st /\
+    st_size st = e - s /\ st_bases st = bases_of cl /\ st_sum st = sum_of fq cl /\
+    st_mean0 st = fdiv64 fq (sum_of fq cl) (f_of_N (e - s)) /\
+    (bases_of cl = 0 -> st_mean st = FNaN /\ st_min st = FNaN /\ st_max st = FNaN) /\
+    (bases_of cl <> 0 ->
+       st_mean st = fdiv64 fq (sum_of fq cl) (f_of_N (bases_of cl)) /\
+       st_min st = fold_left fmin (map v_val cl) f64_max /\
+       st_max st = fold_left fmax (map v_val cl) f64_min).
+Proof. exact BedStatsFile.stats_file. Qed.
+Print Assumptions C17_stats_file.
+
+(* base by base, in terms of the data that was written: bases = number of bases of [s,e) at which the input holds a
+   value (every rounding mode); without rounding the sum is finite and is the sum over the region's bases of the value
+   written at the base (0 where none) *)
+Theorem C17_bases_file : forall fp o sizes (inp : list BigWigWrite.item) bs,
+  BigWigFileRoundTrip.opts_ok o -> BigWigFileRoundTrip.input_ok sizes inp -> Nlen bs < RTreeCodec.U64 ->
+  bw_write fp o sizes inp = Ok bs \/ bw_write_multipass fp o sizes inp = Ok bs ->
+  exists i, read_info bs = Ok i /\
+  forall fq infl c s e rest, In c (map fst inp) -> s <= e ->
+  exists st,
+    stats_for_bed_item fq (bw_interval infl bs i) c {| be_start := s; be_end := e; be_rest := rest |} = Ok st /\
+    st_bases st = N.of_nat (covered_count (BigWigFileInput.vals_of inp c) s e).
+Proof. exact BedStatsFile.bases_file. Qed.
+Print Assumptions C17_bases_file.
+
+Theorem C17_stats_per_base_file : forall fp o sizes (inp : list BigWigWrite.item) bs,
+  BigWigFileRoundTrip.opts_ok o -> BigWigFileRoundTrip.input_ok sizes inp -> Nlen bs < RTreeCodec.U64 ->
+  bw_write fp o sizes inp = Ok bs \/ bw_write_multipass fp o sizes inp = Ok bs ->
+  exists i, read_info bs = Ok i /\
+  forall infl c s e rest, In c (map fst inp) -> s <= e ->
+  let vals := BigWigFileInput.vals_of inp c in
+  all_finite (clip_filter s e vals) ->
+  exists st,
+    stats_for_bed_item exact (bw_interval infl bs i) c {| be_start := s; be_end := e; be_rest := rest |} = Ok st /\
+    st_bases st = N.of_nat (covered_count vals s e) /\
+    is_fin (st_sum st) = true /\
+    (fl_Q (st_sum st) == sum_over (base_val vals) (region_bases s e))%Q.
+Proof. exact BedStatsFile.stats_per_base_file. Qed.
+Print Assumptions C17_stats_per_base_file.
+
+(* valuesoverbed on the bytes: the reader's answer never indexes outside the vector; one cell per base of the region;
+   cell k = bit pattern of the value WRITTEN at base s+k, 0.0 where none was written; and this is the row the tool
+   model computes for any line whose first three tab-separated fields are c, s, e *)
+Theorem C17_values_file : forall fp o sizes (inp : list BigWigWrite.item) bs,
+  BigWigFileRoundTrip.opts_ok o -> BigWigFileRoundTrip.input_ok sizes inp -> Nlen bs < RTreeCodec.U64 ->
+  bw_write fp o sizes inp = Ok bs \/ bw_write_multipass fp o sizes inp = Ok bs ->
+  exists i, read_info bs = Ok i /\
+  forall infl c s e, In c (map fst inp) -> s <= e ->
+  let vals := BigWigFileInput.vals_of inp c in
+  exists cl, bw_interval infl bs i c s e = Ok cl /\
+    existsb (out_of_region s e) cl = false /\
+    length (vob_fill s e cl) = N.to_nat (e - s) /\
+    (forall k, (k < N.to_nat (e - s))%nat ->
+       nth_error (vob_fill s e cl) k =
+       Some (match find (covers (s + N.of_nat k)) vals with Some v => v_bits v | None => 0 end)) /\
+    (forall l st en uniq,
+       piece 0 (trim l) = Some c -> piece 1 (trim l) = Some st -> piece 2 (trim l) = Some en ->
+       parse_u32 st = Some s -> parse_u32 en = Some e ->
+       vob_line (bw_interval infl bs i) false uniq l = Ok (None, vob_fill s e cl)).
+Proof. exact BedStatsFile.values_file. Qed.
+Print Assumptions C17_values_file.
+
+(* one line of bigwigaverageoverbed / one item of the library iterator on the bytes (feeds C17_rows_in_order) *)
+Theorem C17_line_file : forall fp o sizes (inp : list BigWigWrite.item) bs,
+  BigWigFileRoundTrip.opts_ok o -> BigWigFileRoundTrip.input_ok sizes inp -> Nlen bs < RTreeCodec.U64 ->
+  bw_write fp o sizes inp = Ok bs \/ bw_write_multipass fp o sizes inp = Ok bs ->
+  exists i, read_info bs = Ok i /\
+  forall fq infl m l c en nm, parse_bed l = Ok (c, en) -> name_for_bed_item m c en = Ok nm ->
+  In c (map fst inp) -> be_start en <= be_end en ->
+  let cl := clip_filter (be_start en) (be_end en) (BigWigFileInput.vals_of inp c) in
+  exists st, line_result fq (bw_interval infl bs i) m l = Ok (nm, st) /\
+    stats_of fq (be_start en) (be_end en) cl = Ok st /\
+    st_size st = be_end en - be_start en /\ st_bases st = bases_of cl /\ st_sum st = sum_of fq cl.
+Proof. exact BedStatsFile.line_file. Qed.
+Print Assumptions C17_line_file.
+
+(* non-vacuity: BedStatsFile.stats_file_example_hyps (two chromosomes, three sections, both writers meet every
+   hypothesis) and stats_file_example_run (the statistics of region [5,35) and the valuesoverbed row of [8,12) are
+   computed from the bytes by vm_compute: size 30, bases 20, sum 10, min -1, max 3; cells 1 1 -1 -1) *)
+Example C17_stats_file_example :
+  BigWigFileRoundTrip.opts_ok BedStatsFile.sf_opts /\ BigWigFileRoundTrip.input_ok BedStatsFile.sf_sizes BedStatsFile.sf_inp /\
+  In [97] (map fst BedStatsFile.sf_inp) /\ BigWigFileInput.vals_of BedStatsFile.sf_inp [97] = BedStatsFile.sf_a /\
+  (exists bs, bw_write ieee BedStatsFile.sf_opts BedStatsFile.sf_sizes BedStatsFile.sf_inp = Ok bs /\ Nlen bs < RTreeCodec.U64) /\
+  (exists bs, bw_write_multipass ieee BedStatsFile.sf_opts BedStatsFile.sf_sizes BedStatsFile.sf_inp = Ok bs /\ Nlen bs < RTreeCodec.U64).
+Proof. exact BedStatsFile.stats_file_example_hyps. Qed.
